@@ -706,9 +706,13 @@ def absent_key_table(facts, which, cfgname="default"):
             r.run(fi.node)
             nerr = r.errors + len(obj[2]["errors"])
             verdict = "missing" if nerr else ("skipped" if st["advance_to_next_entry"] is True else "accepted-without-skip")
+            after = st.get("occurrence")
+            occ_after = "none" if after == ("None",) else ("unknown" if absint.has_opaque(after) else "kept")
         except Unknown as u:
             verdict = "unknown: %s" % u
-        rows.append({"occ": name, "verdict": verdict, "expected": "skipped" if oracle_allows_absence(occ) else "missing", "file": fi.file, "line": fi.line})
+            occ_after = "unknown"
+        rows.append({"occ": name, "verdict": verdict, "expected": "skipped" if oracle_allows_absence(occ) else "missing", "file": fi.file, "line": fi.line,
+                     "occ_after": occ_after})
     return rows
 
 
